@@ -356,7 +356,7 @@ def c04_shapes(tier):
         n = max([int(c) for w in pat for c in re.findall('\x01(\\d)', w)] + [-1]) + 1
         for cfg, fl in ((0, 0), (0, 2)):
             shapes.append(('hx_pa', [cfg, fl], lab('c04/f%d' % fl, pat), {'pa_tmpl': tmpl('safe', [], ['b2'] * n, pat)}))
-    for words, slots in ((['-z', S(0)], ['d1']), (['-z', S(0)], ['d2']), (['-z', S(0) + ',' + S(1)], ['r2:08:12', 'r2:60:66']), (['-z', S(0), '-z', S(1)], ['r2:13:16', 'r3:126:130']), (['--vbool=' + S(0) + ',' + S(1)], ['r3:126:129', 'r3:190:194'])):
+    for words, slots in ((['-z', S(0)], ['d1']), (['-z', S(0)], ['d2']), (['-z', S(0) + ',' + S(1)], ['r2:08:11', 'r2:62:65']), (['-z', S(0), '-z', S(1)], ['r2:13:16', 'r3:126:130']), (['--vbool=' + S(0) + ',' + S(1)], ['r3:126:129', 'r3:190:194'])):
         shapes.append(('hx_pa', [6, 0], lab('c04/vbool', words), {'pa_tmpl': tmpl('safe', [], slots, words)}))
     # formatters: the table of per-position formatters is consulted for every value, also far behind the last position that has one
     for words, opt in ((['-w', 'a,b,c,d,e,f,g,h,' + S(0) + ',j,k,l'], 0), (['-w', 'a,b,c,d,e,f,g,h,i,j,k,l,m,' + S(0) + ',o'], 2), (['-w', S(0) + ',' + S(1), '-t', S(0) + ',' + S(1) + ',' + S(0) + ',' + S(1)], 0), (['-t', S(0), S(1), S(0), S(1)], 32)):
@@ -504,7 +504,7 @@ def c06_shapes(tier):
     shapes.append(('hx_pa', [6, 0], 'c06/big bitset', {'pa_tmpl': tmpl('ok', ['bigbs=#0,#1,#2'], ['d1', 'r2:60:69', 'r3:190:199'], ['-B', S(0) + ',' + S(1), '--bigbits=' + S(2)])}))
     shapes.append(('hx_pa', [6, 0], 'c06/big bitset beyond size', {'pa_tmpl': tmpl('throw', [], ['r3:200:999'], ['-B', S(0)])}))
     shapes.append(('hx_pa', [6, 0], 'c06/big bitset negative', {'pa_tmpl': tmpl('throw', [], ['r1:1:9'], ['-B', '5,-' + S(0)])}))
-    for words, slots, items in ((['-z', S(0)], ['r1:0:9'], ['vb=#0']), (['-z', S(0)], ['r2:10:12'], ['vb=#0']), (['-z', S(0) + ',' + S(1)], ['r2:10:20', 'r2:60:70'], ['vb=#0,#1']),
+    for words, slots, items in ((['-z', S(0)], ['r1:0:9'], ['vb=#0']), (['-z', S(0)], ['r2:10:12'], ['vb=#0']), (['-z', S(0) + ',' + S(1)], ['r2:10:12', 'r2:62:65'], ['vb=#0,#1']),
                                 (['-z', S(0), '--vbool', S(1)], ['r3:127:129', 'r3:190:193'], ['vb=#0,#1'])):
         shapes.append(('hx_pa', [6, 0], lab('c06/vbool', words), {'pa_tmpl': tmpl('ok', items, slots, words)}))
     # a vector<bool> destination that already has 1..3 positions: every position given is set afterwards (the vector grows)
@@ -671,7 +671,7 @@ def c18_shapes(tier):
 
 
 def build_unit(name, shapes, tier, bounds):
-    return E2Unit(name, os.path.join(HERE, 'w_usage.cpp' if name.endswith('C18') else 'w_pa.cpp'), lib_srcs=lib_srcs(), shapes=shapes, timeout=300 if tier == 'quick' else 1200,
+    return E2Unit(name, os.path.join(HERE, 'w_usage.cpp' if name.endswith('C18') else 'w_pa.cpp'), lib_srcs=lib_srcs(), shapes=shapes, timeout=900 if tier == 'quick' else 2400,
                   max_steps=4000000, conc_cap=300, bounds=bounds, validate_vectors=10)
 
 
@@ -703,4 +703,7 @@ def main(prop, tier, only=None):
 if __name__ == '__main__':
     import argparse
     ap = argparse.ArgumentParser(); ap.add_argument('prop'); ap.add_argument('--tier', default=os.environ.get('VERIF_TIER', 'quick')); ap.add_argument('--only')
-    a = ap.parse_args(); sys.exit(main(a.prop, a.tier, a.only))
+    a = ap.parse_args()
+    if getattr(a, 'only', None) or getattr(a, 'caps', None):
+        os.environ['VERIF_PARTIAL'] = '1'
+    sys.exit(main(a.prop, a.tier, a.only))
